@@ -97,6 +97,21 @@ def to_seq(I: Interp, it, node=None) -> Seq:
         if k in ("keys", "values", "items"):
             d = it.a[0]
             return dict_seq(I, d, k)
+        if k == "snapshot":
+            kind, keys, get, n, ty = it.a
+            kty = ty.a[0] if ty.a else T.ANY
+            vty = ty.a[1] if ty.k == "dict" and len(ty.a) > 1 else T.ANY
+
+            def item(i, kind=kind, keys=keys, get=get):
+                kk = SV(smt.simp(z3.Select(keys, i)), kty)
+                st.assume_wt(kk)
+                if kind == "keys":
+                    return kk
+                vv = SV(smt.simp(z3.Select(get, kk.t)), vty)
+                st.assume_wt(vv)
+                return vv if kind == "values" else PTuple([kk, vv])
+            conc = [item(z3.IntVal(j)) for j in range(n.as_long())] if z3.is_int_value(n) and n.as_long() <= UNROLL_LIMIT else None
+            return Seq(n, item, conc)
         if k == "reversed":
             inner = to_seq(I, it.a[0])
             conc = list(reversed(inner.concrete)) if inner.concrete is not None else None
